@@ -56,13 +56,22 @@ CHECKS.append(
               "literal branch. Decides the construction tables, not std's numeric round trip.",
          note="Trusted: rustc MIR, std Display/FromStr behaviour as stated in the evidence assumptions.",
          technique="static: table agreement + edge-dominance over MIR; one DFA inclusion"))
+CHECKS.append(
+    dict(id="C03", level="proof", engine="E1+E2+E3",
+         text="Writer-side tables against the N-Quads grammar: the escape decision of quoted_string evaluated for all 256 "
+              "byte values (pure comparisons), each escaped byte written as the ECHAR that decodes back to it; emission "
+              "templates of write_term/write_triple/nt+nq statement closures extracted over all success paths and compared "
+              "with the productions; validator languages included in IRIREF/BLANK_NODE_LABEL/LANGTAG (DFA inclusion, all "
+              "strings). Decides what is written, not that the re-parse equals the input.",
+         note="Trusted: rustc MIR/const-eval, regex engines, grammar transcriptions, rio_turtle as the independent reader.",
+         technique="static: finite predicate evaluation of byte tests + path-template extraction + DFA inclusion"))
 NOT_APPLICABLE = [
     dict(property_id="C17", reason="relativise/resolve inverse is an equation between runtime-computed strings "
          "(byte-offset arithmetic); no structural clause that is a genuine necessary condition without freezing the "
          "code; static analysis in reach cannot decide it"),
 ]
 # properties not yet wired in this commit are listed as not applicable *for now* by gen (see below)
-PENDING = ["C01", "C02", "C03", "C05", "C06", "C07", "C08", "C11", "C12", "C13", "C14", "C15",
+PENDING = ["C01", "C02", "C05", "C06", "C07", "C08", "C11", "C12", "C13", "C14", "C15",
            "C18"]
 for p in PENDING:
     if p not in [c["id"] for c in CHECKS]:
